@@ -496,6 +496,34 @@ class C02(ProverCheck):
 
     def gen(self, rng, i, tier):
         cfg = self.cfg(rng)
+        if i % 8 == 7:
+            # the same operand object is taken apart into bits inside a region (taken or not) and again
+            # outside it: whatever the first decomposition left behind must not weaken the second
+            cfg["max_nesting"] = 1
+            X = {"ref": 0, "t": "I"}
+
+            def bitop():
+                u = rng.random()
+                if u < 0.3:
+                    return {"op": ">>", "a": X, "b": {"k": rng.randrange(0, 2), "t": "I"}, "t": "I"}
+                if u < 0.55:
+                    return {"op": rng.choice(["&", "|", "^"]), "a": X, "b": {"ref": 1, "t": "I"}, "t": "I"}
+                if u < 0.8:
+                    return {"call": "bits_roundtrip", "args": [X], "n": None, "t": "I"}
+                return {"call": "check_positive", "args": [X], "t": "B"}
+            bl = cfg["bitlength"]
+            inputs = [{"kind": "priv", "t": "I", "v": rng.choice([0, 1, 2, (1 << bl) - 1, 1 << bl, -1, 3])},
+                      {"kind": "priv", "t": "I", "v": rng.randrange(0, 1 << bl)},
+                      {"kind": "priv", "t": "B", "v": rng.choice([0, 0, 1])}]
+            inner = [{"s": "let", "e": bitop(), "try": True}]
+            if rng.random() < 0.5:
+                region = {"s": "guarded", "cond": {"ref": 0, "t": "B"}, "body": inner}
+            else:
+                region = {"s": "ite_call", "cond": {"ref": 0, "t": "B"}, "true": inner, "false": [],
+                          "tret": X, "fret": X}
+            body = [region] + [{"s": "let", "e": bitop()} for _ in range(rng.choice([1, 2]))]
+            return {"plan": {"cfg": cfg, "inputs": inputs, "body": body}, "seed": rng.randrange(1 << 30),
+                    "deep": tier == "thorough"}
         if i % 4 == 3:
             # a region (taken or not) that works on the operands, then operations on the same operands outside:
             # whatever the region left behind must not weaken what follows
